@@ -470,6 +470,7 @@ func c20Core() []c20Cfg {
 }
 
 func c20Run(e *core.Env) {
+	e.ReserveTail()
 	drv := e.Driver()
 	d3 := []string{"2020-01-30", "2020-02-29", "2020-03-18"}
 	type plan struct {
@@ -535,6 +536,7 @@ func c20Run(e *core.Env) {
 		})
 		e.SetBound(fmt.Sprintf("journal_depth_alphabet%d", len(pl.alpha)), pl.n)
 	}
+	e.BeginTail()
 	// position life histories (see positionChains): portfolios that become empty and are funded again
 	chainN := core.Pick(e, 4, 5)
 	chainCfgs := []c20Cfg{{V: "CHF", Interval: ref.Daily}, {V: "USD", Interval: ref.Daily}, {V: "CHF", Interval: ref.Weekly}, {V: "CHF", Interval: ref.Daily, ComRx: "AAPL"}, {V: "USD", Interval: ref.Daily, AccRx: "Portfolio"}, {V: "CHF", Interval: ref.Daily, Last: 2},
